@@ -713,6 +713,14 @@ def stream_malformed(r: Run, nrand):
     add('syntax', 'reject', '', header='OPENQASM 2.0;\n')
     add('syntax', 'reject', 'rz(007) q[0];\n')
     add('syntax', 'reject', 'include "qelib1.inc"\n')
+    add('syntax', 'reject', 'h q\u00e9[0];\n')
+    add('syntax', 'reject', 'rz(\u22121) q[0];\n')
+    add('syntax', 'reject', 'include "qelib1.inc;\nh q[0];\n')
+    add('syntax', 'reject', 'rz(1_000) q[0];\n')
+    add('syntax', 'reject', 'rz(0x10) q[0];\n')
+    add('syntax', 'reject', 'rz(1e) q[0];\n')
+    add('syntax', 'reject', 'rz(.) q[0];\n')
+    add('syntax', 'reject', 'h q [0] ;\n'.replace('h q [0] ;', 'h q[ ];'))
     add('measure-shape', 'reject', 'measure q -> c[0];\n')
     add('measure-shape', 'reject', 'measure q[0] -> c;\n')
     add('measure-shape', 'reject', 'creg d[3];\nmeasure q -> d;\n')
